@@ -15,6 +15,11 @@ Tie (a) H1: the real libmcount (record.c, misc.c, mcount.c, utils/shmem.c) as th
         uninstrumented caller) against the identity machine Shmem.idRun (c03_messages_carry_own_tid and the two
         pre-fix witnesses); a tree that behaves like a pre-fix variant is reported per finding (open entry of
         known_findings.json -> KNOWN-FINDING, fixed entry -> VIOLATION, no entry yet -> PENDING-FINDING, exit 0).
+    (e) H2 writer pool: harness/c03_writer.c #includes the snapshot's cmds/record.c; read_record_mmap (REC_START /
+        REC_END), record_mmap_file, copy_to_buffer, 1-4 real writer_thread()s, write_buf_list, stop_all_writers,
+        flush_shmem_list and record_remaining_buffer run as they are, stepped by generated schedules (many tasks x many
+        pending buffers, a buffer announced twice, buffers left to the final flush) and compared step by step with
+        Writers.Sess; monitor: each task's file gets its buffers once each, in order (harness/c03_writers.py).
 A monitor evaluates the property itself (conservation, order, no foreign records, LOST placement) on the
 implementation's output in all of them."""
 import glob
@@ -28,6 +33,17 @@ from concurrent.futures import ThreadPoolExecutor
 from lib import common as C, h1
 
 DRIVER = "h1_c03_driver.c"
+
+
+def _load(name):
+    import importlib.util
+    spec = importlib.util.spec_from_file_location(name, os.path.join(C.VERIF, "harness", name + ".py"))
+    mod = importlib.util.module_from_spec(spec)
+    spec.loader.exec_module(mod)
+    return mod
+
+
+WRITERS = _load("c03_writers")
 
 
 def run_model(name, lines):
@@ -537,19 +553,60 @@ int main(int argc, char **argv)
     return hdr + "static int pace_us;\n" + protos + "".join(reversed(src)) + root + main, nf
 
 
+FORK_MAIN = r'''
+#include <sys/wait.h>
+/* main() is not instrumented and forks before anything of this process was traced: libmcount meets the forking
+ * thread for the first time inside its atfork handlers.  Task k > 0 is a fork child (function family k), which
+ * ends by _exit (odd k: nothing of libmcount runs any more) or by returning from main. */
+NOINST int main(int argc, char **argv)
+{
+	int fd = open(argv[1], O_RDWR | O_CREAT | O_TRUNC, 0600);
+	pid_t pids[NT];
+	if (fd < 0 || ftruncate(fd, sizeof(struct tlog) * NT) < 0) return 99;
+	logs = mmap(0, sizeof(struct tlog) * NT, PROT_READ | PROT_WRITE, MAP_SHARED, fd, 0);
+	self_exe = argv[0];
+	for (long i = 1; i < NT; i++) {
+		pids[i] = fork();
+		if (pids[i] == 0) {
+			work((void *)i);
+			if (i & 1) _exit(0);
+			return 0;
+		}
+	}
+	if (PARENT_WORKS) work((void *)0);
+	else { logs[0].tid = syscall(SYS_gettid); logs[0].exited = 1; }
+	for (int i = 1; i < NT; i++) waitpid(pids[i], 0, 0);
+	return 0;
+}
+'''
+
+
+def gen_fork_program(rng, nt, scale=1):
+    """gen_program's functions, but the tasks are processes: an uninstrumented main() forks nt-1 children before it
+    has made any traced call; some children trace less than one buffer, others several."""
+    src, nf = gen_program(rng, nt, scale=scale)
+    head = src[:src.index("int main(int argc, char **argv)")]
+    iters = [rng.randint(40, 120) * scale] + [rng.choice([1, 3, 8, rng.randint(40, 120) * scale]) for _ in range(nt - 1)]
+    head = re.sub(r"static int iters\[NT\] = \{[^}]*\};", "static int iters[NT] = { %s };" % ", ".join(map(str, iters)), head)
+    parent_works = rng.random() < 0.6
+    return head + "#define PARENT_WORKS %d\n" % parent_works + FORK_MAIN, nf, parent_works
+
+
 def build_program(path_c, exe, flavour):
     flags = {"pg": ["-pg"], "cyg": ["-finstrument-functions"], "fentry": ["-pg", "-mfentry"]}[flavour]
     r = C.sh(["gcc", "-O1", "-g", "-no-pie"] + flags + ["-o", exe, path_c, "-lpthread"])
     return r.returncode == 0, r.stdout
 
 
-def sym_ranges(exe):
+def sym_ranges(exe, with_main=False):
     nm = subprocess.run(["nm", "-S", exe], stdout=subprocess.PIPE, text=True).stdout
     out = []
     for l in nm.split("\n"):
         p = l.split()
         if len(p) == 4 and re.fullmatch(r"f\d+", p[3]):
             out.append((int(p[0], 16), int(p[1], 16), int(p[3][1:])))
+        elif with_main and len(p) == 4 and p[3] == "main":
+            out.append((int(p[0], 16), int(p[1], 16), -3))
         elif len(p) == 4 and p[3] == "finish_trigger_fn":
             out.append((int(p[0], 16), int(p[1], 16), -2))
     return sorted(out)
@@ -599,6 +656,8 @@ def decode_dat(path, syms):
             fn = syms[i][2]
             if fn >= 0:
                 codes.append(2 * fn + typ)
+            elif fn == -3:
+                codes.append(("MAIN", typ))
             else:
                 codes.append(("FIN", typ))
     if off != len(data):
@@ -638,15 +697,16 @@ def shm_leftovers(datadir, remove=True):
     return left
 
 
-def check_exact(datadir, exe, gt, nt):
+def check_exact(datadir, exe, gt, nt, main_traced=True):
     """C03 monitor on a normally terminated run: every thread's file is exactly its ground truth."""
-    syms = sym_ranges(exe)
+    syms = sym_ranges(exe, with_main=True)
     bad = []
     tids = {g["tid"] for g in gt if g["tid"]}
     dats = {int(os.path.basename(f)[:-4]) for f in glob.glob(os.path.join(datadir, "*.dat"))
             if os.path.basename(f)[:-4].isdigit()}
-    if tids - dats:
-        bad.append("no data file for thread(s) %s" % sorted(tids - dats))
+    need = {g["tid"] for g in gt if g["tid"] and g["n"]}      # a task that emitted nothing has no file
+    if need - dats:
+        bad.append("no data file for thread(s) %s" % sorted(need - dats))
     if dats - tids:
         bad.append("data file(s) for unknown task(s) %s" % sorted(dats - tids))
     nrecs = 0
@@ -663,6 +723,18 @@ def check_exact(datadir, exe, gt, nt):
                 k, len(foreign), foreign[0] // 2))
         if any(isinstance(c, tuple) and c[0] == "LOST" for c in codes):
             bad.append("thread %d: LOST record although no allocation can have failed" % k)
+        # the tail of a thread: the initial thread runs everything inside main(), which returns normally; its first
+        # record of the program's own functions is main's ENTRY and its last one main's EXIT (whenever libmcount
+        # emits it: from the return hook, or with --estimate-return when the process ends)
+        mainrecs = [(i, c[1]) for i, c in enumerate(codes) if isinstance(c, tuple) and c[0] == "MAIN"]
+        prog = [i for i, c in enumerate(codes) if isinstance(c, int) or (isinstance(c, tuple) and c[0] == "MAIN")]
+        if k == 0 and main_traced:
+            if [t for _, t in mainrecs] != [0, 1] or (prog and (mainrecs[0][0] != prog[0] or mainrecs[-1][0] != prog[-1])):
+                bad.append("thread 0: main() returned normally, but its records in the file are %s at positions %s of %d "
+                           "(expected ENTRY first and EXIT last): records emitted at the end of the thread are missing" % (
+                               ["ENTRY" if t == 0 else "EXIT" for _, t in mainrecs], [i for i, _ in mainrecs], len(codes)))
+        elif mainrecs:
+            bad.append("thread %d: file contains records of main()" % k)
         own = [c for c in codes if isinstance(c, int)]
         if own != g["ev"]:
             j = next((i for i, (a, b) in enumerate(zip(own, g["ev"])) if a != b), min(len(own), len(g["ev"])))
@@ -1400,7 +1472,8 @@ def run(ctx):
 
     # ---- (b) e2e: real recorder -------------------------------------------------------------------
     okm, mlog = make_job.result()
-    e2e = {"runs": 0, "records": 0, "threads": 0, "failures": 0}
+    e2e = {"runs": 0, "records": 0, "threads": 0, "failures": 0, "estimate_return_runs": 0,
+           "fork_from_unseen_thread_runs": 0, "tasks_with_less_than_one_buffer": 0}
     if not okm:
         C.violation(ctx, "make", {"kind": "snapshot-build-failed", "log": mlog[-3000:]}, True)
     else:
@@ -1421,7 +1494,34 @@ def run(ctx):
             for rep in range(2 if ctx.tier == "quick" else 4):
                 nthr = rng.randint(1, 4)
                 opts = ["-b", "4k", "--num-thread", str(nthr)] + (["--no-libcall"] if rng.random() < 0.5 else [])
+                # options that change WHEN libmcount emits records (no draw from ctx.rng: the schedule of the other
+                # families stays what it was): --estimate-return writes the EXIT of a call at the next call of the
+                # thread and everything still open when the process ends
+                if rep % 2 == 1:
+                    opts.append("--estimate-return")
                 jobs.append((d, fl, nt, opts, rng.choice([None, None, "0", "0,1"]), rep))
+
+        # fork from a thread libmcount has not seen (uninstrumented main forks first; own generator: the draws of the
+        # families above and below stay what they were): the child's first buffer is announced by mcount_prepare and
+        # again by the atfork handler; children with less than one buffer are written by the final flush only
+        import random as _random
+        frng = _random.Random(ctx.seed * 977 + 5)
+        fork_dirs = set()
+        for i in range(2 if ctx.tier == "quick" else 12):
+            nt = frng.randint(2, 5)
+            src, nf, pw = gen_fork_program(frng, nt, scale=frng.choice([2, 4]))
+            d = os.path.join(ctx.scratch, "e2ef%d" % i)
+            os.makedirs(d)
+            open(os.path.join(d, "p.c"), "w").write(src)
+            fl = ["pg", "fentry", "cyg"][i % 3]
+            okb, blog = build_program(os.path.join(d, "p.c"), os.path.join(d, "p"), fl)
+            if not okb:
+                C.violation(ctx, "e2ebuild", {"kind": "generated-program-does-not-compile", "log": blog[-2000:]}, True)
+                continue
+            fork_dirs.add(d)
+            for rep in range(2):
+                opts = ["-b", "4k", "--num-thread", str(frng.randint(1, 4))] + (["--no-libcall"] if rep == 0 else [])
+                jobs.append((d, fl, nt, opts, None, rep))
 
         def one(job):
             d, fl, nt, opts, ts, rep = job
@@ -1431,7 +1531,7 @@ def run(ctx):
             if not os.path.exists(gtf):
                 return job, rc, ["program did not start: " + err[-300:]], 0, []
             gt = read_ground_truth(gtf, nt)
-            bad, n = check_exact(dd, os.path.join(d, "p"), gt, nt)
+            bad, n = check_exact(dd, os.path.join(d, "p"), gt, nt, main_traced=d not in fork_dirs)
             shm_leftovers(dd)
             if rc != 0:
                 bad.append("uftrace record exited with %d: %s" % (rc, err[-200:]))
@@ -1442,6 +1542,9 @@ def run(ctx):
             outs = list(ex.map(one, jobs))
         for (d, fl, nt, opts, ts, rep), rc, bad, n, evs in outs:
             e2e["runs"] += 1
+            e2e["estimate_return_runs"] += "--estimate-return" in opts
+            e2e["fork_from_unseen_thread_runs"] += d in fork_dirs
+            e2e["tasks_with_less_than_one_buffer"] += sum(1 for x in evs if 0 < x < 255)
             e2e["records"] += n
             e2e["threads"] += nt
             if bad:
@@ -1465,20 +1568,32 @@ def run(ctx):
     if okm:
         ident = run_identity_family(ctx)
 
+    # ---- (e) H2: the recorder's writer pool, real code of cmds/record.c, scripted schedules -----------------------
+    wpool = {}
+    if okm:
+        wpool = WRITERS.run_family(ctx, C, run_model)
+
     ctx.coverage.update({
-        "evaluations": nsteps + e2e["records"] + ident.get("records", 0),
+        "writer_pool": wpool,
+        "evaluations": nsteps + e2e["records"] + ident.get("records", 0) + wpool.get("steps_compared", 0),
         "distinct_nontrivial": len(distinct),
         "rule": "H1: %d random schedules (1-3 producer threads x 1-3 writers x buffer payload sizes "
                 "48..4080 B x record sizes 16..56 B x allocation-failure rate 0/0.1/0.3), every step compared "
                 "(full state: flags, contents, curr, losts, messages, queues, files); distinct = distinct global "
                 "states seen. e2e: generated multi-threaded programs under the real recorder, -b 4k, "
-                "--num-thread 1..4, optional CPU pinning, streams compared record by record with the "
-                "program's own ground-truth log. e2e identity: generated programs whose threads vfork (+_exit / +exec in the "
+                "--num-thread 1..4, optional CPU pinning, every second run with --estimate-return, streams compared "
+                "record by record with the program's own ground-truth log, the initial thread's file begins with main's "
+                "ENTRY and ends with main's EXIT; the same functions as processes: an uninstrumented main() forks 1-4 "
+                "children before anything was traced (some trace less than one buffer, some end by _exit), with and "
+                "without --no-libcall. e2e identity: generated programs whose threads vfork (+_exit / +exec in the "
                 "child), fork (the child traces on), pthread_exit from nested calls and exec from a non-initial thread, "
                 "each op inside two open traced calls and followed by enough calls for several 4k buffers, with and "
                 "without --no-libcall; every <tid>.dat (threads, fork children, image after exec) = the task's own log. "
                 "vfork probes: control / another thread returning from a library call during the vfork / a second vfork "
-                "from an uninstrumented caller" % len(res),
+                "from an uninstrumented caller. H2 writer pool: cmds/record.c itself (REC_START/REC_END handling, "
+                "copy_to_buffer, 1-4 real writer threads, final flush) under generated schedules of 2-6 tasks with the "
+                "producer 1-8x ahead of the writers, first buffers announced twice, every step compared with Writers.Sess"
+                % len(res),
         "h1_schedules": len(res), "h1_steps_compared": nsteps, "model_code_disagreements": disagree,
         "monitor_failures_on_impl": monfail, "h1_features_exercised": stats,
         "e2e": e2e, "e2e_identity": ident, "exhaustive": False, "samples": samples,
@@ -1488,8 +1603,13 @@ def run(ctx):
         "become visible in program order; no torn 32-bit stores",
         "a record is never larger than a buffer (uftrace -b rounds up to the page size, records are at most "
         "16 + 1024 bytes); a thread that has run mtd_dtor emits nothing more",
-        "H1 plays the recorder with a stand-in (same list discipline as cmds/record.c); the real recorder is "
-        "exercised by the e2e runs, where the schedule is whatever the kernel does",
+        "H1 plays the recorder with a stand-in (same list discipline as cmds/record.c); the real recorder code runs in "
+        "the H2 writer-pool harness (harness/c03_writer.c: cmds/record.c #included, writer threads stepped at poll(), "
+        "per buffer write and the second critical section; trace buffers are memfds with tagged contents, no real "
+        "tracee) and in the e2e runs, where the schedule is whatever the kernel does",
+        "H2 schedules run each critical section of writer_thread/copy_to_buffer atomically (they are under "
+        "write_list_lock in the code); a buffer is filled once (no reuse of a written buffer inside one H2 schedule: "
+        "reuse is covered by H1 and e2e)",
         "FIFO writes of one message are atomic (PIPE_BUF) and messages of one thread arrive in order",
         "e2e identity programs: while one thread is inside vfork() no other thread returns from a call through the PLT "
         "(barriers and locks are taken with inline system calls): the interleaving that does is the vfork probe "
@@ -1504,6 +1624,14 @@ def run(ctx):
 def replay(ctx, path):
     r = json.load(open(path))
     print(json.dumps({k: v for k, v in r.items() if k not in ("harness_script", "model_script")}, indent=1))
+    if "writer_script" in r:
+        ctx.snapshot()
+        ensure_version_h(ctx)
+        okm, mlog = ctx.make()
+        if not okm:
+            print(mlog[-2000:])
+            return 1
+        return WRITERS.replay_script(ctx, C, run_model, r)
     if "harness_script" in r:
         ctx.snapshot()
         exe, log = build_h1(ctx)
